@@ -13,7 +13,7 @@ const farFuture = 1000000 * time.Hour // janitor interval that never fires withi
 var (
 	cfgTTLs    = []time.Duration{0, time.Hour, cache.UnlimitedTTL, 90 * time.Second, time.Nanosecond}
 	cfgJitters = []float64{-1, 0, 0.5, 1}
-	callTTLs   = []time.Duration{0, time.Hour, time.Nanosecond, -time.Nanosecond, -time.Hour, 90 * time.Second}
+	callTTLs   = []time.Duration{0, time.Hour, time.Nanosecond, -time.Nanosecond, -time.Hour, 90 * time.Second, -60 * 365 * 24 * time.Hour}
 )
 
 const c07Rule = "rapid state machine: 5-60 ops (Write/Store/Read/Load/SkipRead/Delete/ExpireAll/DeleteAll/Walk+Len/Advance) over a 9-key alphabet " +
@@ -68,7 +68,7 @@ func backendOps(c *Case, d *mapDriver, keys [][]byte, nops int) {
 
 			var v interface{}
 			if c.Weighted("val", 8, 1) == 0 {
-				v = d.token(k)
+				v = d.value(k)
 			} else {
 				c.Class("zero-value-written")
 			}
@@ -136,7 +136,7 @@ func backendOps(c *Case, d *mapDriver, keys [][]byte, nops int) {
 
 			k := pickKey()
 			if c.Bool("store") {
-				d.write(k, d.token(k), 0, true)
+				d.write(k, d.value(k), 0, true)
 			} else {
 				d.read(k, false, true)
 			}
